@@ -3,6 +3,8 @@ package main
 import (
 	"go/token"
 	"go/types"
+	"regexp"
+	"sort"
 	"strings"
 
 	"golang.org/x/tools/go/ssa"
@@ -347,6 +349,29 @@ func c16BodyKinds(c *Ctx) {
 			n++
 			ptr := s.ptr
 			cut := nonNilCut(fn, func(subj ssa.Value) bool { return sameValue(subj, ptr, 0) })
+			// a predicate method of the owning struct whose answer true implies the field is set
+			if u, ok := ptr.(*ssa.UnOp); ok {
+				if fa, ok := u.X.(*ssa.FieldAddr); ok {
+					for _, b := range fn.Blocks {
+						iff := lastIfOf(b)
+						if iff == nil {
+							continue
+						}
+						cond, pol := stripNot(iff.Cond, true)
+						call, ok := cond.(*ssa.Call)
+						if !ok || len(call.Call.Args) == 0 || !sameValue(call.Call.Args[0], fa.X, 0) {
+							continue
+						}
+						if predicateImpliesNonNil(call.Call.StaticCallee(), s.fld) {
+							if pol {
+								cut.AddEdges(Edge{b, 0})
+							} else {
+								cut.AddEdges(Edge{b, 1})
+							}
+						}
+					}
+				}
+			}
 			inst := fname(fn) + ":" + s.fld + " tested non-nil before it is dereferenced"
 			if len(cut.Edges) > 0 && Reach(fn, nil, nil, isInstr(s.at), cut) == nil {
 				c.OK(rule, inst, c.P.InstrPos(s.at), "every path to the dereference takes the non-nil branch of a test of the same field")
@@ -369,23 +394,60 @@ func c16BodyKinds(c *Ctx) {
 
 // bodyFieldOf: ptr is (a load of) a pointer-typed field of a runtime/host/protocol.Body; the field's name, or "".
 func bodyFieldOf(ptr ssa.Value) string {
+	wire := func(t types.Type, idx int) bool {
+		if !strings.HasPrefix(namedOf(derefType(t)), "runtime/host/protocol.") {
+			return false
+		}
+		st, ok := derefType(t).Underlying().(*types.Struct)
+		return ok && idx < st.NumFields() && strings.Contains(st.Tag(idx), "json:")
+	}
 	switch x := ptr.(type) {
 	case *ssa.UnOp:
-		if fa, ok := x.X.(*ssa.FieldAddr); ok && x.Op == token.MUL {
-			if namedOf(derefType(fa.X.Type())) == "runtime/host/protocol.Body" {
-				if _, isPtr := x.Type().Underlying().(*types.Pointer); isPtr {
-					return fieldName(fa.X.Type(), fa.Field)
-				}
+		if fa, ok := x.X.(*ssa.FieldAddr); ok && x.Op == token.MUL && wire(fa.X.Type(), fa.Field) {
+			if _, isPtr := x.Type().Underlying().(*types.Pointer); isPtr {
+				return fieldName(fa.X.Type(), fa.Field)
 			}
 		}
 	case *ssa.Field:
-		if namedOf(x.X.Type()) == "runtime/host/protocol.Body" {
+		if wire(x.X.Type(), x.Field) {
 			if _, isPtr := x.Type().Underlying().(*types.Pointer); isPtr {
 				return fieldName(x.X.Type(), x.Field)
 			}
 		}
 	}
 	return ""
+}
+
+// predicateImpliesNonNil: callee is a module function with a single bool result whose value true implies that the named
+// field of (the struct behind) its first parameter is non-nil (e.g. Features.HasScheduleControl).
+func predicateImpliesNonNil(callee *ssa.Function, field string) bool {
+	if callee == nil || callee.Blocks == nil || len(callee.Params) == 0 || callee.Signature.Results().Len() != 1 {
+		return false
+	}
+	if b, ok := callee.Signature.Results().At(0).Type().Underlying().(*types.Basic); !ok || b.Kind() != types.Bool {
+		return false
+	}
+	par := callee.Params[0]
+	isField := func(subj ssa.Value) bool {
+		u, ok := subj.(*ssa.UnOp)
+		if !ok {
+			return false
+		}
+		fa, ok := u.X.(*ssa.FieldAddr)
+		return ok && fa.X == ssa.Value(par) && fieldName(fa.X.Type(), fa.Field) == field
+	}
+	cut := nonNilCut(callee, isField)
+	rx := regexp.MustCompile(`^\*param:` + regexp.QuoteMeta(pname(par)) + `\.` + regexp.QuoteMeta(field) + ` != nil$`)
+	n := 0
+	for _, r := range Returns(callee) {
+		for _, t := range boolResultTargets(r.Results[0], true, r, cut, rx, map[ssa.Value]bool{}) {
+			if Reach(callee, nil, nil, isInstr(t), cut) != nil {
+				return false
+			}
+		}
+		n++
+	}
+	return n > 0
 }
 
 // nonNilCut: the edges of fn on which a nil test of a value structurally equal to ptr says "non-nil".
@@ -660,4 +722,102 @@ func c16Snapshots(c *Ctx) {
 		c.DominatedByCond(rule, fn, "root type == state root", `\.Root\.Type == 1$`, ev, "the root type in the (untrusted) checkpoint metadata must be the state root type")
 		c.DominatedByCond(rule, fn, "root hash == trusted app hash", `^common/crypto/hash\.\(\*Hash\)\.Equal\((.*Metadata\.Root\.Hash,.*|.*,.*Metadata\.Root\.Hash)\)$`, ev, "the root hash in the (untrusted) checkpoint metadata must be the trusted application hash")
 	}
+}
+
+// c19ResultFields (known finding F58): of a transaction result obtained from the provider, the stateless node hands on
+// only what the verified results hash covers. The covered set is read from CometBFT itself (the fields that
+// types.deterministicResponseDeliverTx copies into what is hashed); every other field of a ResponseDeliverTx that the
+// stateless result paths read (directly or through its getter) is content the provider can alter unnoticed.
+func c19ResultFields(c *Ctx) {
+	const rule = "C19.rescov"
+	const resT = "github.com/cometbft/cometbft/abci/types.ResponseDeliverTx"
+	var det *ssa.Function
+	if pkg := c.P.SSA.ImportedPackage("github.com/cometbft/cometbft/types"); pkg != nil {
+		det = pkg.Func("deterministicResponseDeliverTx")
+	}
+	if det == nil || det.Blocks == nil {
+		c.Undecided(rule, "hashed fields", "", "CometBFT's deterministicResponseDeliverTx was not found in the loaded program (the set of hashed result fields cannot be derived)")
+		return
+	}
+	isRes := func(t types.Type) bool {
+		n, ok := derefType(t).(*types.Named)
+		return ok && n.Obj().Pkg() != nil && n.Obj().Pkg().Path()+"."+n.Obj().Name() == resT
+	}
+	fieldsRead := func(fn *ssa.Function) map[string]ssa.Instruction {
+		out := map[string]ssa.Instruction{}
+		for _, b := range fn.Blocks {
+			for _, in := range b.Instrs {
+				switch x := in.(type) {
+				case *ssa.FieldAddr:
+					if isRes(x.X.Type()) {
+						// a store into a freshly built value is not a read
+						stored := false
+						if refs := x.Referrers(); refs != nil {
+							for _, r := range *refs {
+								if st, ok := r.(*ssa.Store); ok && st.Addr == ssa.Value(x) {
+									stored = true
+								}
+							}
+						}
+						if !stored {
+							out[fieldName(x.X.Type(), x.Field)] = in
+						}
+					}
+				case *ssa.Field:
+					if isRes(x.X.Type()) {
+						out[fieldName(x.X.Type(), x.Field)] = in
+					}
+				case ssa.CallInstruction:
+					if callee := x.Common().StaticCallee(); callee != nil && callee.Signature.Recv() != nil && isRes(callee.Signature.Recv().Type()) && strings.HasPrefix(callee.Name(), "Get") {
+						out[strings.TrimPrefix(callee.Name(), "Get")] = in
+					}
+				}
+			}
+		}
+		return out
+	}
+	hashed := map[string]bool{}
+	for f := range fieldsRead(det) {
+		hashed[f] = true
+	}
+	c.Check(len(hashed) >= 2 && hashed["Code"] && hashed["Data"], rule, "hashed fields of a transaction result", "", "CometBFT hashes {"+joinKeys(hashed)+"}", "the set of result fields CometBFT hashes could not be derived from deterministicResponseDeliverTx")
+	// the stateless result paths: what turns verified provider results into what callers get
+	readers := []string{
+		"consensus/cometbft/full.TransactionResultsFromCometBFT",
+		"consensus/cometbft/api.NewBlockResultsMeta",
+		"consensus/cometbft/stateless.verifyBlockResults",
+		"consensus/cometbft/stateless.(*Core).verifyBlockResults",
+		"consensus/cometbft/stateless.(*Core).GetTransactionsWithResults",
+	}
+	for _, f := range c.P.FuncsInPkg("consensus/cometbft/stateless") {
+		readers = append(readers, fname(f))
+	}
+	seen := map[string]bool{}
+	n := 0
+	for _, rn := range readers {
+		if seen[rn] {
+			continue
+		}
+		seen[rn] = true
+		fn := c.P.Fn(rn)
+		if fn == nil || fn.Blocks == nil {
+			continue
+		}
+		fr := fieldsRead(fn)
+		if len(fr) == 0 {
+			continue
+		}
+		c.Analysed[fname(fn)] = true
+		var names []string
+		for f := range fr {
+			names = append(names, f)
+		}
+		sort.Strings(names)
+		for _, f := range names {
+			n++
+			inst := fname(fn) + ":result field " + f + " is covered by the results hash"
+			c.Check(hashed[f], rule, inst, c.P.InstrPos(fr[f]), "covered (CometBFT hashes it)", "the stateless result path reads field "+f+" of a provider's transaction result, which the results hash in the next header does not cover (CometBFT hashes only {"+joinKeys(hashed)+"}): the provider can alter it and the altered value is handed to the caller as verified")
+		}
+	}
+	c.Floor(rule, n, 4, "result fields read on the stateless result paths")
 }
